@@ -157,9 +157,9 @@ def run_tlc(module, cfg, outfile, workers=12, timeout=1500, simulate=None, depth
         res["depth"] = int(m.group(1))
     for am in re.finditer(r"^<(\w+) line \d+, col \d+ to line \d+, col \d+ of module (\w+)>: (\d+):(\d+)", text, re.M):
         res["coverage"][am.group(1)] = res["coverage"].get(am.group(1), 0) + int(am.group(4))
-    vm = re.search(r"Invariant (\w+) is violated|Action property (\w+) is violated|Temporal properties were violated", text)
+    vm = re.search(r"Invariant (\w+) is violated|Action property (\w+) is violated|Temporal properties were violated|Postcondition (\w+) .* is false", text)
     if vm:
-        res["violated"] = vm.group(1) or vm.group(2) or "temporal"
+        res["violated"] = vm.group(1) or vm.group(2) or vm.group(3) or "temporal"
         if not allow_violation:
             raise ToolError("TLC refuted %s in %s (a defect of the specification, not of the code); see %s"
                             % (res["violated"], cfg, outfile))
